@@ -371,7 +371,7 @@ class Parser:
                 return IntRange(
                     start=int(start_sign + start.value), end=int(end_sign + end.value), step=1
                 )
-            except ValueError as error:
+            except (ValueError, OverflowError) as error:
                 raise ExpressionError("Failed to create Range") from error
 
         # Not done, now expecting a colon to indicate the step
@@ -390,7 +390,7 @@ class Parser:
                 end=int(end_sign + end.value),
                 step=int(step_sign + step.value),
             )
-        except ValueError:
+        except (ValueError, OverflowError):
             raise ExpressionError("Failed to create Range") from ValueError
 
     def _expression(self) -> IntRangeExpr:
@@ -428,5 +428,5 @@ class Parser:
 
         try:
             return IntRangeExpr(ranges)
-        except ValueError as error:
+        except (ValueError, OverflowError) as error:
             raise ExpressionError("Failed to create IntRangeExpr") from error
